@@ -114,6 +114,9 @@ def symbols():
     add('from_phi_3d', lambda: {'phi': _phi(3), 'xx': _grid()}, lambda a: dadi.Spectrum.from_phi(a['phi'], [3, 5, 2], [a['xx']] * 3))
     add('from_phi_4d', lambda: {'phi': _phi(4, 4), 'xx': np.array([0.0, 0.25, 0.5, 1.0])}, lambda a: dadi.Spectrum.from_phi(a['phi'], [2, 3, 2, 1], [a['xx']] * 4))
     add('from_phi_inbreeding', lambda: {'phi': _phi(1), 'xx': _grid()}, lambda a: dadi.Spectrum.from_phi_inbreeding(a['phi'], [4], [a['xx']], [0.3], [2]))
+    add('from_phi_inbreeding_ploidy4', lambda: {'phi': _phi(1), 'xx': _grid()}, lambda a: dadi.Spectrum.from_phi_inbreeding(a['phi'], [12], [a['xx']], [0.3], [4]))
+    add('lowpass_nocall', lambda: {'cov': np.array([np.arange(6.0), [0.1, 0.2, 0.3, 0.2, 0.1, 0.1]])},
+        lambda a: LP.probability_of_no_call_1D_GATK_multisample(a['cov'], 6, 0.2))
     add('from_phi_inbreeding_F2', lambda: {'phi': _phi(1), 'xx': _grid()}, lambda a: dadi.Spectrum.from_phi_inbreeding(a['phi'], [4], [a['xx']], [0.6], [2]))
     add('from_data_dict_1', lambda: {'dd': _dd(1)}, lambda a: dadi.Spectrum.from_data_dict(a['dd'], ['A'], [4]))
     add('from_data_dict_2', lambda: {'dd': _dd(2)}, lambda a: dadi.Spectrum.from_data_dict(a['dd'], ['A', 'B'], [4, 3], polarized=False))
@@ -184,7 +187,7 @@ def symbols():
     return S
 
 
-QUICK_SYMS = ['fragment_bootstrap', 'FIM_A_pts40', 'project_1d', 'project_2d', 'from_phi_1d', 'from_phi_2d', 'from_phi_2d_gridB', 'from_phi_inbreeding', 'from_data_dict_1', 'lowpass_projmat_F0',
+QUICK_SYMS = ['from_phi_inbreeding_ploidy4', 'lowpass_nocall', 'fragment_bootstrap', 'FIM_A_pts40', 'project_1d', 'project_2d', 'from_phi_1d', 'from_phi_2d', 'from_phi_2d_gridB', 'from_phi_inbreeding', 'from_data_dict_1', 'lowpass_projmat_F0',
               'lowpass_projmat_F', 'LRT_A1', 'LRT_A2', 'FIM_A', 'object_func', 'optimize_grid', 'two_pops']
 BLAS = {'from_phi_2d', 'from_phi_2d_gridB', 'from_phi_2d_gridC', 'from_phi_3d', 'from_phi_4d', 'reorder_then_sample', 'demes_sfs', 'demes_sfs_BA'}
 
